@@ -38,26 +38,26 @@ type FoundViolation struct {
 }
 
 type WorkerOut struct {
-	Runs       int                         `json:"runs"`
-	Steps      int64                       `json:"steps"`
-	SimNanos   int64                       `json:"sim_nanos"`
-	Counters   map[string]int64            `json:"counters"`
-	States     []string                    `json:"states"`
-	Shapes     []string                    `json:"shapes"`
-	Nontrivial int                         `json:"nontrivial"`
-	Violations map[string]*FoundViolation  `json:"violations"`
-	Samples    []json.RawMessage           `json:"samples"`
-	Aborted    []string                    `json:"aborted"`
-	Digests    map[string]string           `json:"digests,omitempty"`
-	WallS      float64                     `json:"wall_s"`
-	Replay     *ReplayOutcome              `json:"replay,omitempty"`
+	Runs       int                        `json:"runs"`
+	Steps      int64                      `json:"steps"`
+	SimNanos   int64                      `json:"sim_nanos"`
+	Counters   map[string]int64           `json:"counters"`
+	States     []string                   `json:"states"`
+	Shapes     []string                   `json:"shapes"`
+	Nontrivial int                        `json:"nontrivial"`
+	Violations map[string]*FoundViolation `json:"violations"`
+	Samples    []json.RawMessage          `json:"samples"`
+	Aborted    []string                   `json:"aborted"`
+	Digests    map[string]string          `json:"digests,omitempty"`
+	WallS      float64                    `json:"wall_s"`
+	Replay     *ReplayOutcome             `json:"replay,omitempty"`
 }
 
 type ReplayOutcome struct {
-	Reproduced  bool   `json:"reproduced"`
-	SameDigest  bool   `json:"same_digest"`
-	Fingerprint string `json:"fingerprint"`
-	Detail      string `json:"detail"`
+	Reproduced  bool     `json:"reproduced"`
+	SameDigest  bool     `json:"same_digest"`
+	Fingerprint string   `json:"fingerprint"`
+	Detail      string   `json:"detail"`
 	Got         []string `json:"got"`
 	Trace       []string `json:"trace,omitempty"`
 }
